@@ -428,8 +428,8 @@ Proof. exact case_meaning_graphops. Qed.
 Print Assumptions C18_check_meaning_graphops.
 
 (* Non-vacuity: real case lines (harness output on /repo, one per operation; op 2 written by hand: the graph
-   0->1,2  1->2  2->0 from root 0 and from the missing root 3) are accepted with code 0; a line with one
-   observed number changed is rejected. *)
+   0->1,2  1->2  2->0 from root 0 and from the missing root 3) are accepted with code 0; lines with one
+   observed number changed are rejected. *)
 Example C18_check_ok_examples :
   let ok line := exists tag, check_C18 line = verdict 0 tag (-1) [] in
   let bad line := exists tag pos diag, check_C18 line = verdict 2 tag pos diag in
@@ -451,7 +451,18 @@ Example C18_check_ok_examples :
   ok [18; 9; 19; 9; 125; 60; 108; 78; 62; 9; 124; 108; 13; 32; 108; 32; 123; 60; 92; 0; 0; 124; 0; 29; 34; 9; 92; 125; 92; 60; 108; 78; 92; 62; 9; 92; 124; 108; 13;
       32; 108; 32; 92; 123; 92; 60; 92; 92; 0; 0; 92; 124; 34] /\
   ok [18; 10; 1; 1; 0; 4; 0; 13; 123; 34; 0; 0; 0; 0; 1; 1; 1; 0; 0; 47; 100; 105; 103; 114; 97; 112; 104; 32; 34; 0; 13; 92; 123; 92; 34; 34; 32; 123; 10; 110; 48; 32;
-      91; 108; 97; 98; 101; 108; 61; 34; 48; 34; 93; 59; 10; 110; 48; 32; 45; 62; 32; 110; 48; 59; 10; 125; 10; 1; 1; 1; 0].
+      91; 108; 97; 98; 101; 108; 61; 34; 48; 34; 93; 59; 10; 110; 48; 32; 45; 62; 32; 110; 48; 59; 10; 125; 10; 1; 1; 1; 0] /\
+  (* In(1) with its two sources swapped; a merged weight 2.0 instead of 1.0; a wrong NodeMap entry; a changed argument after the
+     call; a quote left unescaped; an edge statement naming the wrong target *)
+  bad [18; 4; 3; 2; 2; 1; 1; 0; 5; 2; 0; 2; 0; 1; 0; 3; 3; 1; 2; 2; 2; 2; 0; 3; 0; 2; 2; 3; 2; 2; 1; 1; 0; 5; 2; 0; 2; 0; 1; 1; 1; 3; 2; 2; 1; 1; 0; 5; 2; 0; 2; 0; 1] /\
+  bad [18; 6; 4; 1; 3; 2; 1; 2; 2; 1; 3; 1; 1; 0; 0; 0; 4; 1; 3; 2; 1; 2; 2; 1; 3; 1; 1; 4; 1; 4607182418800017408; 2; 4607182418800017408; 4607182418800017408;
+       2; 4607182418800017408; 4607182418800017408; 1; 4611686018427387904; 1; 4; 1; 3; 2; 1; 2; 2; 1; 3; 1; 1] /\
+  bad [18; 7; 3; 5; 2; 2; 0; 0; 1; 1; 2; 0; 2; 1; 2; 2; 1; 0; 0; 2; 1; 1; 0; 2; 1; 0; 2; 0; 0; 1; 3; 5; 2; 2; 0; 0; 1; 1; 2; 0; 2; 1; 2; 2; 1; 0] /\
+  bad [18; 8; 3; 2; 1; 2; 1; 1; 3; 0; 1; 1; 2; 0; 2; 4; 0; 1; 2; 1; 0; 1; 1; 1; 0; 2; 1; 0; 1; 3; 2; 1; 2; 1; 1; 3; 0; 1; 1; 2; 0; 2; 4; 0; 1; 2; 2] /\
+  ok [18; 9; 3; 97; 34; 10; 0; 7; 34; 97; 92; 34; 92; 110; 34] /\
+  bad [18; 9; 3; 97; 34; 10; 0; 6; 34; 97; 34; 92; 110; 34] /\
+  bad [18; 10; 1; 1; 0; 4; 0; 13; 123; 34; 0; 0; 0; 0; 1; 1; 1; 0; 0; 47; 100; 105; 103; 114; 97; 112; 104; 32; 34; 0; 13; 92; 123; 92; 34; 34; 32; 123; 10; 110; 48; 32;
+       91; 108; 97; 98; 101; 108; 61; 34; 48; 34; 93; 59; 10; 110; 48; 32; 45; 62; 32; 110; 49; 59; 10; 125; 10; 1; 1; 1; 0].
 Proof.
   cbv zeta. repeat split; vm_compute; repeat eexists.
 Qed.
